@@ -160,10 +160,8 @@ theorem getZ_scoreVec (cfg : Cfg) (tm : TagModel) (text : List Char) (i c : Nat)
 /-- the tag part of well-formedness that the proofs use -/
 structure WFT (m : WModel) : Prop where
   bias_len : ∀ tm ∈ m.tagModels, tm.bias.length = nClass tm.tags
-  char_ok : ∀ tm ∈ m.tagModels, ∀ d ∈ tm.charNgrams, ∀ w ∈ d.weights,
-    w.rel ≤ m.charW ∧ w.weights.length = nClass tm.tags
-  type_ok : ∀ tm ∈ m.tagModels, ∀ d ∈ tm.typeNgrams, ∀ w ∈ d.weights,
-    w.rel ≤ m.typeW ∧ w.weights.length = nClass tm.tags
+  char_ok : ∀ tm ∈ m.tagModels, ∀ d ∈ tm.charNgrams, ∀ w ∈ d.weights, w.weights.length = nClass tm.tags
+  type_ok : ∀ tm ∈ m.tagModels, ∀ d ∈ tm.typeNgrams, ∀ w ∈ d.weights, w.weights.length = nClass tm.tags
 
 def tpmOf (cfg : Cfg) (m : WModel) : List (List Char × Nat × TagPredictor) :=
   (m.tagModels.zipIdx).map fun x => (x.1.token, x.2, mkTP cfg x.1)
@@ -220,8 +218,7 @@ theorem tagScore_spec (cfg : Cfg) (m : WModel) (p : Predictor) (hP : PredOK cfg 
       rw [h2 tm.charNgrams (List.mem_map.mpr ⟨tm, hmem, rfl⟩), tagNgramScore_nil]; omega
     · rw [h1, hs.cst sc h1]
       exact pmaAddTagScores_spec cfg m.charW _ (Lm m) sc h2 tid tm.charNgrams
-        (by rw [List.getElem?_map, htid]; rfl)
-        (fun d hd w hw => (hW.char_ok tm hmem d hd w hw).1) text i (by omega) sc1 (by rw [hK, hl1])
+        (by rw [List.getElem?_map, htid]; rfl) text i (by omega) sc1 (by rw [hK, hl1])
   obtain ⟨sc2, b1, b2, b3⟩ := hchar
   -- type scorer
   have htype : ∃ sc3, (match p.typeScorer with
@@ -234,8 +231,7 @@ theorem tagScore_spec (cfg : Cfg) (m : WModel) (p : Predictor) (hP : PredOK cfg 
       rw [h2 tm.typeNgrams (List.mem_map.mpr ⟨tm, hmem, rfl⟩), tagNgramScore_nil]; omega
     · rw [h1, hs.tst sc h1]
       exact pmaAddTagScores_spec cfg m.typeW _ (Lm m) sc h2 tid tm.typeNgrams
-        (by rw [List.getElem?_map, htid]; rfl)
-        (fun d hd w hw => (hW.type_ok tm hmem d hd w hw).1) (typesOf text) i
+        (by rw [List.getElem?_map, htid]; rfl) (typesOf text) i
         (by simp only [typesOf, List.length_map]; omega) sc2 (by rw [hK, b2, hl1])
   obtain ⟨sc3, c1, c2, c3⟩ := htype
   have hfin : sc3 = scoreVec cfg tm text i := by
@@ -247,9 +243,9 @@ theorem tagScore_spec (cfg : Cfg) (m : WModel) (p : Predictor) (hP : PredOK cfg 
       · rw [if_pos hc]; omega
       · rw [if_neg hc, getZ_ge tm.bias _ (by omega),
           tagNgramScore_ge tm.charNgrams text i c
-            (fun d hd w hw => by have := (hW.char_ok tm hmem d hd w hw).2; omega),
+            (fun d hd w hw => by have := hW.char_ok tm hmem d hd w hw; omega),
           tagNgramScore_ge tm.typeNgrams (typesOf text) i c
-            (fun d hd w hw => by have := (hW.type_ok tm hmem d hd w hw).2; omega)]
+            (fun d hd w hw => by have := hW.type_ok tm hmem d hd w hw; omega)]
         rfl
   subst hfin
   refine ⟨sc1, sc2, a1, ?_, ?_, ?_, ?_⟩
